@@ -374,8 +374,10 @@ def check(repo, gcls, dcls):
     rd = m.readers[dcls]
     acc = lambda name: PE.accepts(rd.method(name))
     alpha = SL.star(m.allowed - SL.syms("".join(m.g.whitespace)))
+    # what the encoders write for numbers: str() of int, float and Decimal values (finite ones)
+    written = SL.rx(r"-?[0-9]+(\.[0-9]+)?([eE][+-]?[0-9]+)?")
     kinds = {"decimal number": acc("decode_decimal"), "based integer": acc("decode_non_decimal"),
-             "date/time": acc("decode_datetime")}
+             "date/time": acc("decode_datetime"), "number as str() writes it": acc("decode_decimal") & written}
     classes = []
     for kname, K in kinds.items():
         K = K & alpha & SL.length_gt(0)
